@@ -22,6 +22,7 @@ import (
 	"verifharness/common"
 	"verifharness/jqast"
 	"verifharness/jqgen"
+	"verifharness/jqref"
 )
 
 const budget = 60000
@@ -197,6 +198,7 @@ func main() {
 		ctx.Res.Notes = append(ctx.Res.Notes, fmt.Sprintf("%d disagreement(s) confirmed against jq 1.6", n))
 	}
 	lawsOracle(ctx)
+	jqref.Run(ctx)
 	// stack / scope-stack / mini-VM streams (package c01aux; driver drv_c01aux next to drv_c01)
 	c01aux.Run(ctx, filepath.Join(filepath.Dir(ctx.Driver), "drv_c01aux"))
 	ctx.Finish()
